@@ -61,6 +61,24 @@ def main(run):
             for bl in blens:
                 lines.append("c01 udp 0 %d 1 0 O %d %s" % (code, nn, "@%d,1" % bl if bl else "-"))
                 kinds.append("limit")
+    # the top of the length ranges: tokens and option values of 65535 .. 65804 bytes (the two-byte
+    # extension forms up to their maximum), on every framing, plus the same bytes cut by one byte
+    big = [65535, 65536, 65537, 65803, 65804]
+    for proto in ("udp", "tcp", "ws"):
+        for tl in [269, 300] + big:
+            b = gen_wire.py_serialize(proto, 0, 1, 0x1234, gen_wire.rbytes(r, tl), [(11, b"a")], b"x")
+            lines.append("c03 %s %s" % (proto, b.hex()))
+            kinds.append("bigfield")
+            lines.append("c03 %s %s" % (proto, b[:-3].hex()))
+            kinds.append("bigfield")
+        for vl in big:
+            for num in (65000, 2049):
+                b = gen_wire.py_serialize(proto, 0, 2, 0x1234, b"\x01", [(11, b"a"), (num, gen_wire.rbytes(r, vl))],
+                                          b"" if vl % 2 else b"p")
+                lines.append("c03 %s %s" % (proto, b.hex()))
+                kinds.append("bigfield")
+            lines.append("c03 %s %s" % (proto, b[:-2].hex()))
+            kinds.append("bigfield")
     # stream framing: coap_pdu_parse_size on the header (+ token-length extension bytes) of valid
     # and mutated TCP encodings, all four Len forms x token forms
     for i in range(1500 if run.tier == "quick" else 40000):
@@ -89,7 +107,7 @@ def main(run):
     for i, ln in enumerate(lines):
         mo, co = om[i], oc[i]
         acc = mo != "REJECT" and "REJECT" not in mo
-        nontriv = kinds[i] in ("mutated", "sweep", "limit", "framesize") or (acc and "o=-" not in mo)
+        nontriv = kinds[i] in ("mutated", "sweep", "limit", "framesize", "bigfield") or (acc and "o=-" not in mo)
         run.count(ln, nontriv)
         run.hist("kind", kinds[i])
         run.hist("reference_verdict", "accept" if acc else "reject")
